@@ -72,7 +72,7 @@ def kernel_stream(ctx):
     return {"kernel_cases": len(cases), "kernel_disagreements": bad}
 
 
-def run(ctx, calls=CALLS, module=MODULE, corpus=CORPUS, gen_kw=None, extra=None):
+def run(ctx, calls=CALLS, module=MODULE, corpus=CORPUS, gen_kw=None, extra=None, provisional=None):
     if extra is None and module == MODULE:
         extra = kernel_stream
     gate = None
@@ -82,8 +82,8 @@ def run(ctx, calls=CALLS, module=MODULE, corpus=CORPUS, gen_kw=None, extra=None)
     except common.LeanGateError as ex:
         gate_err = str(ex)
     rng = random.Random(ctx.seed * 7919 + 17)
-    G = gen.Gen(rng, max_extent=4 if not ctx.thorough else 6, **(gen_kw or {}))
-    eng = treecheck.Engine(ctx, G, calls)
+    G = gen.Gen(rng, max_extent=5 if not ctx.thorough else 6, **(gen_kw or {}))
+    eng = treecheck.Engine(ctx, G, calls, provisional=provisional)
     if ctx.replay:
         rp = json.load(open(ctx.replay))
         c = rp.get("case") or rp.get("original_case")
@@ -95,7 +95,7 @@ def run(ctx, calls=CALLS, module=MODULE, corpus=CORPUS, gen_kw=None, extra=None)
         ts = []
         if os.path.exists(corpus):
             ts += [json.loads(l) for l in open(corpus) if l.strip()]
-        n = 120 if not ctx.thorough else 4000
+        n = 240 if not ctx.thorough else 4000
         ts += trees(ctx, G, n)
         batch = 400
         for i in range(0, len(ts), batch):
@@ -111,7 +111,10 @@ def run(ctx, calls=CALLS, module=MODULE, corpus=CORPUS, gen_kw=None, extra=None)
                    "every tree observed; distinct = canonical JSON of (expression, call, operand); non-trivial = not a bare "
                    "Identity/ScalarMul/Diagonal leaf" % (4 if ctx.thorough else 3, G.max_extent))
     common.write_evidence(ctx, gate, cov, assumptions=[
-        "Jacobian, Hessian, ConvolveND, Kernel, FFT are outside the model (autodiff / jax-only / transcendental payloads)",
+        "Jacobian, Hessian, ConvolveND, FFT are outside the model (autodiff / jax-only / transcendental payloads); Kernel is "
+        "modelled separately (Model/KernelOp.lean, C01's kernel stream) and cannot be nested in a tree",
+        "dtype: real = code model (Op.dtype, Op.mmDtype) = specification (Op.dtypeSpec, Op.mmDtypeSpec: join of the leaf dtypes "
+        "and the operand dtype), proved equal for every tree (C01_dtype, C01_result_dtype, C02_tower_dtype)",
         "floating-point results are compared exactly only where every intermediate is an exactly representable integer"])
     print(json.dumps({"outcomes": cov["outcomes"], "distinct_nontrivial": cov["distinct_nontrivial"],
                       "gate": (gate or {}).get("obligations")}))
